@@ -44,6 +44,38 @@ pub fn run(input: &Tree) -> Option<Tree> {
                 tl![A(2), state_tree(&st, &strings), A(k), ab(inputs_intact(&st, l.get(2)?))]
             }
         }),
+        3 => {
+            // PrintChar<C> for characters beyond ASCII (the instruction is generic in the character): [3, strings, state, [code point]]
+            use push::instruction::printing::PrintChar;
+            let cp = l.get(3)?.list()?.first()?.int()?;
+            let before = state.clone();
+            macro_rules! pc {
+                ($c:literal) => {
+                    PrintChar::<$c>::default().perform(state)
+                };
+            }
+            let r = match cp {
+                0x78 => pc!('x'),
+                0xE9 => pc!('\u{e9}'),
+                0x3BB => pc!('\u{3bb}'),
+                0x1F980 => pc!('\u{1f980}'),
+                0x7F => pc!('\u{7f}'),
+                0x80 => pc!('\u{80}'),
+                0xFF => pc!('\u{ff}'),
+                0x100 => pc!('\u{100}'),
+                0xFFFD => pc!('\u{fffd}'),
+                _ => return None,
+            };
+            Some(match r {
+                Ok(s) => tl![A(0), state_tree(&s, &strings), A(0), ab(inputs_intact(&s, l.get(2)?))],
+                Err(e) => {
+                    let class = if e.is_recoverable() { 1 } else { 2 };
+                    let k = errkind(e.error());
+                    let same = *e.state() == before;
+                    tl![A(class), state_tree(e.state(), &strings), A(k), ab(same)]
+                }
+            })
+        }
         2 => {
             // two phases: run until the step limit (or the end), LOOK at the printed output on the state itself, run on
             // from there - looking at the output must not disturb it (observed as mode 0 observes the second run)
@@ -412,6 +444,11 @@ fn gen(tier: &str, rng: &mut Sm) -> Gen {
         g.inputs.push(tl![A(1), strings_tree(), st, p]);
     }
     program_cases(&mut g, rng, if thorough { 30000 } else { 1500 }, if thorough { 400 } else { 150 });
+    // PrintChar at characters beyond ASCII, after some earlier output
+    for cp in [0x78i128, 0xE9, 0x3BB, 0x1F980, 0x7F, 0x80, 0xFF, 0x100, 0xFFFD] {
+        let st = tl![A(3), L(vec![]), A(3), L(vec![A(5)]), A(3), L(vec![]), A(3), L(vec![]), L(vec![]), A(10)];
+        g.inputs.push(tl![A(3), strings_tree(), st, L(vec![a(cp)])]);
+    }
     // two-phase runs (the output is looked at between the phases): printing programs under small step limits, and every
     // fifth random program again
     {
@@ -579,6 +616,12 @@ fn gen_c03(tier: &str, rng: &mut Sm) -> Gen {
             p = if k % 2 == 0 { tl![A(100), p, noop.clone()] } else { tl![A(9), p] };
         }
         let st = tl![A(50), L(vec![p]), A(5), L(vec![]), A(5), L(vec![]), A(5), L(vec![]), L(vec![]), au(3 * d + 10)];
+        g.inputs.push(tl![A(0), strings_tree(), st, L(vec![])]);
+    }
+    // ENORMOUS stack limits (nothing may be reserved up to the limit): programs with blocks under limits up to usize::MAX
+    for cap in [u64::MAX as i128, (u64::MAX / 2) as i128, 1i128 << 60, 1i128 << 40] {
+        let prog = vec![tl![A(100), tl![A(6), A(1)], tl![A(100), tl![A(6), A(2)], tl![A(13), A(0)]]], tl![A(27)], tl![A(100), tl![A(26)], tl![A(6), A(3)]], tl![A(6), A(4)]];
+        let st = tl![a(cap), L(prog), a(cap), L(vec![]), a(cap), L(vec![]), a(cap), L(vec![]), L(vec![]), A(50)];
         g.inputs.push(tl![A(0), strings_tree(), st, L(vec![])]);
     }
     // extreme numeric values: no instruction may panic or abort on them
